@@ -3,7 +3,7 @@
 From Coq Require Import String.
 From Coq Require Import List Ascii ZArith Bool Lia.
 From CGV Require Import Base.PyBase Base.PyVal Base.NxGraph Resolve.Bonding Resolve.GraphOps Resolve.Pipeline
-     Resolve.StepCheck Resolve.MapDefs Resolve.Witness Resolve.VirtualProofs Resolve.MapProofs Resolve.CopyProofs Resolve.PipelineFull Resolve.FragidProofs Resolve.VirtualStep Resolve.ZeroEdgeStep Resolve.C11Check.
+     Resolve.StepCheck Resolve.MapDefs Resolve.Witness Resolve.VirtualProofs Resolve.MapProofs Resolve.CopyProofs Resolve.PipelineFull Resolve.FragidProofs Resolve.VirtualStep Resolve.ZeroEdgeStep Resolve.ZeroEdgeAny Resolve.C11Check.
 From CGV Require Hydro.Hydrogens.
 Import ListNotations.
 Open Scope Z_scope.
@@ -235,6 +235,68 @@ Proof.
   - destruct Hin as [Hin|[]]. inversion Hin; subst. reflexivity.
 Qed.
 
+(** the same on the RETURNED graphs, in the style of C11_step_remove_virtual_any (Resolve/ZeroEdgeAny.v): an extra order-0 edge
+    between two REAL coarse nodes (at any level, any flags, any dictionary, any transcript).  [same_results fo fo']: the returned
+    fine graph, the coarse mapping (the 'graph' attribute of every coarse key) and every intermediate fine graph are equal *)
+Theorem C11_step_remove_zero_edge_any : forall legacy aa fd prev car fo' a b, NoDup (node_keys prev) -> zedge a b (meta_in prev) ->
+  resolve_step_full legacy aa fd prev car = Ok fo' ->
+  exists fo, resolve_step_full legacy aa fd (remove_edge prev a b) car = Ok fo /\
+    (fo_mol fo = fo_mol fo' /\ fo_fgs fo = fo_fgs fo' /\
+     fo_m2 fo = fo_m2 fo' /\ fo_m3 fo = fo_m3 fo' /\ fo_m4 fo = fo_m4 fo' /\ fo_m5 fo = fo_m5 fo' /\ fo_m6 fo = fo_m6 fo') /\
+    fo_meta fo = remove_edge (fo_meta fo') a b /\ nodes_data (fo_meta fo) = nodes_data (fo_meta fo').
+Proof. exact step_remove_zero_edge_any. Qed.
+Theorem C11_step_insert_zero_edge_any : forall legacy aa fd prev car fo a b, NoDup (node_keys prev) -> zedge a b (meta_in prev) ->
+  resolve_step_full legacy aa fd (remove_edge prev a b) car = Ok fo ->
+  exists fo', resolve_step_full legacy aa fd prev car = Ok fo' /\
+    (fo_mol fo = fo_mol fo' /\ fo_fgs fo = fo_fgs fo' /\
+     fo_m2 fo = fo_m2 fo' /\ fo_m3 fo = fo_m3 fo' /\ fo_m4 fo = fo_m4 fo' /\ fo_m5 fo = fo_m5 fo' /\ fo_m6 fo = fo_m6 fo') /\
+    fo_meta fo = remove_edge (fo_meta fo') a b /\ nodes_data (fo_meta fo) = nodes_data (fo_meta fo').
+Proof. exact step_insert_zero_edge_any. Qed.
+Theorem C11_step_zero_edge_iff_any : forall legacy aa fd prev car a b, NoDup (node_keys prev) -> zedge a b (meta_in prev) ->
+  ((exists fo', resolve_step_full legacy aa fd prev car = Ok fo') <->
+   (exists fo, resolve_step_full legacy aa fd (remove_edge prev a b) car = Ok fo)).
+Proof. exact step_zero_edge_iff_any. Qed.
+Theorem C11_step_zero_edge_err : forall legacy aa fd prev car a b e, NoDup (node_keys prev) -> zedge a b (meta_in prev) ->
+  (resolve_step_full legacy aa fd prev car = Err e <-> resolve_step_full legacy aa fd (remove_edge prev a b) car = Err e).
+Proof. exact step_zero_edge_err. Qed.
+(** INSERTING the edge: networkx add_edge(a, b, order=0) between two nodes of the coarse graph that were not joined
+    ([noedge a b prev]: neither adjacency view has the other node) is undone by remove_edge, and the step cannot tell *)
+Theorem C11_remove_add_edge : forall g a b d, NoDup (node_keys g) -> In a (node_keys g) -> In b (node_keys g) -> a <> b ->
+  noedge a b g -> remove_edge (add_edge g a b d) a b = g.
+Proof. exact remove_add_edge. Qed.
+Theorem C11_step_add_zero_edge : forall legacy aa fd prev car a b,
+  NoDup (node_keys prev) -> In a (node_keys prev) -> In b (node_keys prev) -> a <> b -> noedge a b prev ->
+  resolve_step_full legacy aa fd prev car =
+  match resolve_step_full legacy aa fd (add_edge prev a b [(S "order", VInt 0)]) car with
+  | Ok fo => Ok (with_meta fo (meta_in prev))
+  | Err e => Err e
+  end.
+Proof. exact step_add_zero_edge. Qed.
+Theorem C11_step_add_zero_edge_any : forall legacy aa fd prev car fo a b,
+  NoDup (node_keys prev) -> In a (node_keys prev) -> In b (node_keys prev) -> a <> b -> noedge a b prev ->
+  resolve_step_full legacy aa fd prev car = Ok fo ->
+  exists fo', resolve_step_full legacy aa fd (add_edge prev a b [(S "order", VInt 0)]) car = Ok fo' /\
+    (fo_mol fo = fo_mol fo' /\ fo_fgs fo = fo_fgs fo' /\
+     fo_m2 fo = fo_m2 fo' /\ fo_m3 fo = fo_m3 fo' /\ fo_m4 fo = fo_m4 fo' /\ fo_m5 fo = fo_m5 fo' /\ fo_m6 fo = fo_m6 fo') /\
+    nodes_data (fo_meta fo') = nodes_data (fo_meta fo).
+Proof. exact step_add_zero_edge_any. Qed.
+(** non-vacuity: {[#A][#B].[#B]} (three real nodes, 0 and 2 not joined) satisfies the hypotheses of the insertion form, add_edge
+    gives the graph of C11_step_remove_zero_edge_nonvacuous (which satisfies those of the removal forms), both steps return
+    the same four atoms and the same mapping *)
+Definition base_AB_B : graph := [cnode 0 "A" [(1, 1)]; cnode 1 "B" [(0, 1)]; cnode 2 "B" []].
+Example C11_step_zero_edge_any_nonvacuous :
+  NoDup (node_keys base_AB_B) /\ In 0 (node_keys base_AB_B) /\ In 2 (node_keys base_AB_B) /\ noedge 0 2 base_AB_B /\
+  add_edge base_AB_B 0 2 [(S "order", VInt 0)] = base_AB_B0 /\
+  match resolve_step_full true false fd_AB base_AB_B None, resolve_step_full true false fd_AB base_AB_B0 None with
+  | Ok fo, Ok fo' => graph_eqb (fo_mol fo) (fo_mol fo') && Nat.eqb (length (fo_mol fo)) 4 &&
+                     Nat.eqb (length (fo_fgs fo)) 3 && Nat.eqb (length (fo_fgs fo')) 3
+  | _, _ => false end = true.
+Proof.
+  split; [vm_compute; repeat constructor; cbn; intuition discriminate|]. split; [vm_compute; tauto|]. split; [vm_compute; tauto|].
+  split; [|split; vm_compute; reflexivity].
+  intros n [<-|[<-|[<-|[]]]]; split; intros Hk; try discriminate Hk; reflexivity.
+Qed.
+
 (** ---- order-0 edges make no bond (corollaries of the proved bond fold of C03) *)
 Theorem C11_no_bond_for_order0 : forall legacy arom a b s acc, edge_loop legacy arom (Z.to_nat 0) a b s acc = Ok (s, acc).
 Proof. exact no_bond_for_order0. Qed.
@@ -267,3 +329,10 @@ Print Assumptions C11_step_insert_virtual_any.
 Print Assumptions C11_step_virtual_iff_any.
 Print Assumptions C11_edges_after_remove_edge.
 Print Assumptions C11_step_remove_zero_edge.
+Print Assumptions C11_step_remove_zero_edge_any.
+Print Assumptions C11_step_insert_zero_edge_any.
+Print Assumptions C11_step_zero_edge_iff_any.
+Print Assumptions C11_step_zero_edge_err.
+Print Assumptions C11_remove_add_edge.
+Print Assumptions C11_step_add_zero_edge.
+Print Assumptions C11_step_add_zero_edge_any.
